@@ -30,7 +30,7 @@ def run(rep):
              ('sqlparse.filters.others.StripWhitespaceFilter.process', 'body'),
              ('sqlparse.sql.TokenList.get_parent_name', None), ('sqlparse.utils.remove_quotes', None),
              ('sqlparse.utils.remove_quotes', 'None')] + tc.NAV_FUNCS + \
-            [(tc.GT, 'new group'), (tc.GT, 'extend flag')] + tc.MATCHER_FUNCS + tc.PASS_FUNCS
+            [(tc.GT, 'new group'), (tc.GT, 'extend flag')] + tc.MATCHER_FUNCS + tc.PASS_FUNCS + tc.JOINER_FUNCS
     return generic.run_generic(
         rep, funcs, structural=[validation_dominates, rec],
         assumptions=['option values range over None | bool | int | float (finite, inf, nan) | str | other object; objects '
